@@ -57,6 +57,17 @@ CHECKS = {
         'library lacks. Which concrete arrays scikit-learn\'s check_array rejects, feature-count mismatch at predict time and '
         'array-like equivalence are NOT decided.'),
   note=TB),
+ 'C17': dict(
+  technique='static analysis: ownership/aliasing abstract interpretation (FRESH: view- vs copy-producing operations) of every in-place write construct, who-may-call / value-flow rule for random generators and seeded components, typestate (read-before-assign of fitted attributes, conditional assignment), transitive effect sets of query methods, closure free-variable freshness',
+  text=('Decides over all call histories, for all 17 estimators: no global numpy.random/random call and every draw is on '
+        'check_random_state(<random_state>), every library component with a random_state parameter in the installed signature gets '
+        'it, wall-clock reads never reach self; no in-place write (augmented assignment, slice/subscript store, out=, fill_diagonal, '
+        'in-place methods) reachable from fit or a query method hits an object that may alias an argument, a hyper-parameter (init / '
+        'prior / basis / bounds / weights / preprocessor) or, in query methods, the fitted state; fit reads no fitted attribute '
+        '(directly, via hasattr/getattr/vars, or in optimiser callbacks) before assigning it and assigns components_/threshold_/'
+        'n_features_in_/preprocessor_ unconditionally; query methods store nothing on self; the get_metric closure captures only fresh '
+        'objects and get_mahalanobis_matrix returns a fresh array. BLAS-level reproducibility and pickle equality are NOT decided.'),
+  note=TB + ' Closed-world table of view-producing numpy/scikit-learn operations (fresh.py); any other library call returns a fresh object.'),
  'C18': dict(
   technique='static analysis: path-forking abstract interpretation of every __init__ along the MRO with object-identity tracking; must-pass-through (dominance) of fitted-state guards over reads of fitted attributes; effect analysis of stores on self',
   text=('Decides for 17 estimators x every constructor parameter (130 pairs) that on every path of __init__ self.<p> is the very '
@@ -69,7 +80,7 @@ CHECKS = {
 
 _PENDING = 'check not built yet in this revision of /verif (see DESIGN.md section 9 build order); nothing is claimed for it'
 NOT_APPLICABLE = {p: _PENDING for p in
-  ['C07','C08','C09','C10','C11','C12','C13','C14','C15','C17','C19','C20']}
+  ['C07','C08','C09','C10','C11','C12','C13','C14','C15','C19','C20']}
 NOT_APPLICABLE['C16'] = ('optimality of a cut-off over a labelled multiset of distances with ties is a property of runtime '
                          'values; no structural necessary condition of it exists that a sound static rule can name without '
                          'also firing on correct tie-aware rewrites; its parameter-validation sentence is checked as C06(7)')
